@@ -1,10 +1,12 @@
 package main
 
 import (
+	"errors"
 	"fmt"
 	"math"
 	"math/rand/v2"
 	"net/url"
+	"os"
 	"reflect"
 	"strconv"
 	"strings"
@@ -62,6 +64,19 @@ type Node struct {
 	N    int     `valid:"le=5"`
 	Next *Node   `valid:"exist"`
 	Kids []*Node `valid:"exist"`
+}
+
+// Dept / Team refer to each other (mutual recursion): Team carries nothing but links (bare `exist`), and
+// Dept's link field is declared in front of its first field with a rule.
+type Dept struct {
+	Teams []*Team         `valid:"exist"`
+	Name  string          `valid:"required"`
+	ByKey map[string]Team `valid:"exist"`
+}
+
+type Team struct {
+	Dept *Dept   `valid:"exist"`
+	Subs []*Team `valid:"exist"`
 }
 
 // KS is a named string type (map keys of kind string that are not `string`).
@@ -322,7 +337,10 @@ var scalarTypes = []reflect.Type{
 	reflect.TypeOf(float32(0)), reflect.TypeOf(float64(0)), reflect.TypeOf(false),
 }
 
-var namedStructs = []reflect.Type{reflect.TypeOf(Leaf{}), reflect.TypeOf(Mid{}), reflect.TypeOf(Top{}), reflect.TypeOf(Node{})}
+var errorType = reflect.TypeOf((*error)(nil)).Elem()
+var stringerType = reflect.TypeOf((*fmt.Stringer)(nil)).Elem()
+
+var namedStructs = []reflect.Type{reflect.TypeOf(Leaf{}), reflect.TypeOf(Mid{}), reflect.TypeOf(Top{}), reflect.TypeOf(Node{}), reflect.TypeOf(Dept{}), reflect.TypeOf(Team{})}
 
 var fieldNames = []string{"A", "B", "C", "D", "E", "F", "G", "Édit", "Ünit", "Name", "Id"}
 
@@ -450,6 +468,10 @@ func (g *wgen) fieldType(depth int) reflect.Type {
 		return reflect.TypeOf(func() {})
 	case x < g.pNested+0.27:
 		return reflect.TypeOf(complex128(0))
+	case x < g.pNested+0.285:
+		return pick(g.r, []reflect.Type{reflect.TypeOf([]*time.Time(nil)), reflect.TypeOf([]*url.URL(nil)), reflect.TypeOf([]interface{}(nil))})
+	case x < g.pNested+0.30:
+		return reflect.TypeOf((*interface{})(nil)).Elem() // (the wire names interface fields by their dynamic value only: interface{} fields)
 	}
 	return g.scalarType()
 }
@@ -608,7 +630,7 @@ func (g *wgen) fill(v reflect.Value, depth int) {
 			p := reflect.New(v.Type().Elem())
 			g.fill(p.Elem(), depth+1)
 			v.Set(p)
-			if p.Elem().Kind() == reflect.Struct && v.Type().Elem() != reflect.TypeOf(Node{}) {
+			if p.Elem().Kind() == reflect.Struct && v.Type().Elem() != reflect.TypeOf(Node{}) && v.Type().Elem() != reflect.TypeOf(Dept{}) && v.Type().Elem() != reflect.TypeOf(Team{}) {
 				if g.shared == nil {
 					g.shared = map[reflect.Type][]reflect.Value{}
 				}
@@ -648,6 +670,31 @@ func (g *wgen) fill(v reflect.Value, depth int) {
 			}
 		}
 	case reflect.Interface:
+		if v.Type() == errorType {
+			// nil, an ordinary error, a typed nil pointer inside the interface (fmt prints it as <nil>)
+			switch r.IntN(3) {
+			case 1:
+				v.Set(reflect.ValueOf(errors.New(pick(r, []string{"e", "1", "a"}))))
+			case 2:
+				v.Set(reflect.ValueOf((*os.PathError)(nil)))
+			}
+			return
+		}
+		if v.Type() == stringerType {
+			switch r.IntN(4) {
+			case 1:
+				v.Set(reflect.ValueOf(time.Duration(r.IntN(3))))
+			case 2:
+				v.Set(reflect.ValueOf((*time.Time)(nil)))
+			case 3:
+				v.Set(reflect.ValueOf((*url.URL)(nil)))
+			}
+			return
+		}
+		if v.Type().NumMethod() == 0 && chance(r, 0.15) {
+			v.Set(reflect.ValueOf(pick(r, []interface{}{(*time.Time)(nil), (*url.URL)(nil), (*os.PathError)(nil), (*int)(nil), errors.New("e")})))
+			return
+		}
 		switch r.IntN(4) {
 		case 0:
 		case 1:
@@ -800,6 +847,34 @@ func groupCase(r *rand.Rand) Case {
 		return v
 	}
 	tags := []string{"top:group", "member:" + t.Kind().String()}
+	if !composite && chance(r, 0.12) {
+		// a parent whose own group has its members on both sides of a nested slice of group objects; the slice is
+		// sometimes long enough for any bookkeeping bound on the number of pending groups (63 … 70 elements)
+		rule2 := pick(r, []string{"either", "botheq"}) + "=" + pick(r, []string{"7", "1"})
+		outer := reflect.StructOf([]reflect.StructField{
+			{Name: "P", Type: t, Tag: reflect.StructTag("valid:" + strconv.Quote(rule2))},
+			{Name: "L", Type: reflect.SliceOf(st), Tag: `valid:"exist"`},
+			{Name: "Q", Type: t, Tag: reflect.StructTag("valid:" + strconv.Quote(rule2))}})
+		k := pick(r, []int{1, 2, 3, 63, 64, 65, 70})
+		o := reflect.New(outer)
+		sl := reflect.MakeSlice(reflect.SliceOf(st), k, k)
+		for i := 0; i < k; i++ {
+			sl.Index(i).Set(mk())
+		}
+		o.Elem().Field(1).Set(sl)
+		base := reflect.ValueOf(scalarNear(r, t.Kind(), pick(r, smallInts))).Convert(t)
+		switch r.IntN(4) {
+		case 1:
+			o.Elem().Field(0).Set(base)
+		case 2:
+			o.Elem().Field(0).Set(base)
+			o.Elem().Field(2).Set(base)
+		case 3:
+			o.Elem().Field(0).Set(base)
+			o.Elem().Field(2).Set(reflect.ValueOf(scalarNear(r, t.Kind(), pick(r, smallInts))).Convert(t))
+		}
+		return structCall{src: o.Interface()}.toCase(append(tags, "src:straddle", fmt.Sprintf("elems:%d", k)), "")
+	}
 	switch r.IntN(4) {
 	case 0:
 		k := 2 + r.IntN(2)
@@ -1191,7 +1266,11 @@ func flatUrlCase(r *rand.Rand, o ruleOpts) Case {
 		}
 	}
 	var params []string
-	for i, n := 0, r.IntN(5); i < n; i++ {
+	nParams := r.IntN(5)
+	if chance(r, 0.02) {
+		nParams = pick(r, []int{255, 256, 257, 300, 700}) // no entry point has a limit on the number of values
+	}
+	for i, n := 0, nParams; i < n; i++ {
 		k := pick(r, flatKeys)
 		v := flatValue2str(r)
 		switch r.IntN(8) {
